@@ -112,6 +112,13 @@ def criteria_in_order(opts):
 
 
 def _pairs_provider_factory(holder, n1_hint):
+    """Which variables of the program are the student-project decisions.
+    Returns (ids, pairs, n1, trusted).  trusted = identified through the
+    documented attribute Pair.lp_var or the documented variable names
+    "(student,project)"; otherwise a guess that is good enough to enumerate
+    efficiently but is not offered to the oracles as FEAS/OPT sets."""
+    import pulp as _pulp
+
     def provider(lp=None):
         s = holder.get('solver')
         m = getattr(s, 'model', None)
@@ -121,10 +128,9 @@ def _pairs_provider_factory(holder, n1_hint):
                 for p in row:
                     ids.append(id(p.lp_var))
                     pairs.append((p.studentID, p.projectID))
-            return ids, pairs, m.num_students
+            return ids, pairs, m.num_students, True
         except AttributeError:
             pass
-        # fall back on the documented variable names "(student,project)"
         ids, pairs = [], []
         pat = re.compile(r'^\((\d+),(\d+)\)$')
         n1 = n1_hint or 0
@@ -135,7 +141,20 @@ def _pairs_provider_factory(holder, n1_hint):
                     ids.append(id(v))
                     pairs.append((int(mm.group(1)), int(mm.group(2))))
                     n1 = max(n1, int(mm.group(1)))
-        return ids, pairs, n1
+        if ids:
+            return ids, pairs, n1, True
+        # guess: the first LpVariable attribute of every Pair object
+        try:
+            for row in m.pairs:
+                for p in row:
+                    for val in vars(p).values():
+                        if isinstance(val, _pulp.LpVariable):
+                            ids.append(id(val))
+                            pairs.append((p.studentID, p.projectID))
+                            break
+        except Exception:
+            pass
+        return ids, pairs, n1, False
     return provider
 
 
